@@ -1,7 +1,9 @@
 import glob, json, os, re, shutil, subprocess, sys, time, hashlib
 from concurrent.futures import ThreadPoolExecutor
 import build as B
+import fuzz as F
 from registry import HARNESSES, CHECKS, RULES, ASSUMPTIONS
+HARNESSES.update(F.harness_defs())
 
 ROOT = B.ROOT
 EVID = os.path.join(ROOT, "evidence")
@@ -42,6 +44,23 @@ def get_harness(name):
     return B.build_harness(name, h["sources"], h.get("variant", "san"), extra_flags=h.get("flags", ()),
                            libs=h.get("libs", ("-lrapidcheck", "-lsqlite3", "-lz")), with_shim=h.get("shim", False),
                            link_flags=h.get("link_flags", ()))
+
+
+def part_handlers(p):
+    """(run, replay) for parts that are not owned-loop pbt campaigns."""
+    if p.get("kind") == "fuzz":
+        return F.make_runner(get_harness, p["targets"], p["quick_runs"], p["thorough_runs"])
+    if p.get("kind") == "custom":
+        return p["run"], p.get("replay")
+    raise KeyError(p.get("kind"))
+
+
+def find_part(chk, path):
+    sub = os.path.basename(path).split("-")[0].split("__")[0]
+    for p in chk["parts"]:
+        if sub == p["prop"] or sub.startswith(p["prop"] + "_"):
+            return p
+    return chk["parts"][0]
 
 
 def crash_signature(logtext):
@@ -232,7 +251,7 @@ def cmd_check(pid, tier, seed):
     os.makedirs(replaydir, exist_ok=True)
     try:
         with B.BuildLock():
-            exes = {p["harness"]: get_harness(p["harness"]) for p in chk["parts"]}
+            exes = {p["harness"]: get_harness(p["harness"]) for p in chk["parts"] if p.get("harness")}
     except B.BuildError as e:
         print("BUILD-FAILED\n" + str(e))
         return 2
@@ -243,7 +262,7 @@ def cmd_check(pid, tier, seed):
 
     # ---- 1. regression cases (must pass) and known-finding reproducers (expected to fail)
     for p in chk["parts"]:
-        sub, exe = p["prop"], exes[p["harness"]]
+        sub, exe = p["prop"], exes.get(p.get("harness"))
         if p.get("kind", "pbt") != "pbt":
             continue
         for case in sorted(glob.glob(os.path.join(ROOT, "regress", pid, "%s__*.case" % sub))):
@@ -256,7 +275,7 @@ def cmd_check(pid, tier, seed):
             if pid not in t.get("properties", []) or not t.get("reproducer"):
                 continue
             sub = t.get("prop", pid)
-            part = next((p for p in chk["parts"] if p["prop"] == sub), None)
+            part = next((p for p in chk["parts"] if p["prop"] == sub and p.get("kind", "pbt") == "pbt"), None)
             if not part:
                 continue
             case = os.path.join(ROOT, t["reproducer"])
@@ -274,9 +293,9 @@ def cmd_check(pid, tier, seed):
 
     # ---- 2. generated campaigns
     for p in chk["parts"]:
-        sub, exe = p["prop"], exes[p["harness"]]
+        sub, exe = p["prop"], exes.get(p.get("harness"))
         if p.get("kind", "pbt") != "pbt":
-            handler = p["run"]
+            handler = part_handlers(p)[0]
             r = handler(pid, p, exe, tier, seed, workdir, avoid, env_for_run())
             merged["evaluations"] += r.get("evaluations", 0)
             merged["nontrivial"] += r.get("nontrivial", 0)
@@ -350,8 +369,7 @@ def cmd_check(pid, tier, seed):
     # ---- 3. confirm violations (replay 3x), print
     confirmed = []
     for path, msg in violations:
-        sub = os.path.basename(path).split("-")[0].split("__")[0]
-        part = next((p for p in chk["parts"] if p["prop"] == sub), chk["parts"][0])
+        part = find_part(chk, path)
         if part.get("kind", "pbt") != "pbt":
             confirmed.append((path, msg))
             continue
@@ -401,13 +419,11 @@ def cmd_check(pid, tier, seed):
 
 def cmd_replay(pid, path):
     chk = CHECKS[pid]
-    base = os.path.basename(path)
-    sub = base.split("-")[0].split("__")[0]
-    part = next((p for p in chk["parts"] if p["prop"] == sub), chk["parts"][0])
+    part = find_part(chk, path)
+    if part.get("kind", "pbt") != "pbt":
+        return part_handlers(part)[1](pid, part, None, path, env_for_run())
     with B.BuildLock():
         exe = get_harness(part["harness"])
-    if part.get("kind", "pbt") != "pbt":
-        return part["replay"](pid, part, exe, path, env_for_run())
     rc, out = run_replay(exe, part["prop"], path, avoid_list(pid), os.environ.get("VERIF_TIER", "quick"), timeout=600)
     print(out)
     if rc != 0:
@@ -422,8 +438,10 @@ def cmd_setup():
         with B.BuildLock():
             for v in ("san", "fuzz"):
                 B.build_lib(v)
-            for name in HARNESSES:
-                get_harness(name)
+            names = list(HARNESSES)
+            # compile the harnesses in parallel (each is one or two large translation units)
+            with ThreadPoolExecutor(8) as ex:
+                list(ex.map(get_harness, names))
     except B.BuildError as e:
         print("BUILD-FAILED\n" + str(e))
         return 2
@@ -474,6 +492,11 @@ def main(argv):
             return cmd_check(pid, tier, seed)
         except B.BuildError as e:
             print("BUILD-FAILED\n" + str(e))
+            return 2
+        except Exception:
+            import traceback
+            traceback.print_exc()
+            print("DRIVER-FAILED (machinery error, not a verdict)")
             return 2
     if cmd == "replay":
         return cmd_replay(argv[1], argv[2])
